@@ -158,7 +158,7 @@ PROPS = {
         "level_text": "Proved on the model for every engine state: every firing produced by fire_all is for a rule whose condition is true of the matched fact's contents at that moment (and only live facts are "
                 "matched); handles are issued in increasing order. The property's sentences - firings only for live satisfying facts, retracted facts never fire, exactly-once firing of no-loop rules under inert actions, "
                 "agreement of the three working-memory views, handle freshness - are the Coq-defined monitor Incremental.ok evaluated on the implementation's own observations (it does not use the propagation model), "
-                "and the model is compared with the code per op.",
+                "and the model is compared with the code per op. Added theorems (Proofs/IncrementalViewsProofs.v): in every reachable state of the model the three working-memory views agree (in the full listing iff found by its handle iff listed under its type, and then not retracted), a retracted fact is in none of them, handles are pairwise distinct and below the next handle (never reused) - invariant through insert / update / retract / fire_all (with its action effects) / reset.",
         "level_note": "Trusted: Coq kernel; model of propagation.rs/working_memory.rs after fixes a666833 and 26cddab; HashSet iteration orders modelled as ascending (histories are generated so that outcomes do not depend on them); "
                 "custom action closures mirror what GrlReteLoader actions do to working memory; harness; extraction. Multi-type joins, accumulate, multifield nodes are outside 'single-type rule sets'. Axioms: none.",
         "trusted_base": ["std HashSet/HashMap iteration order is unspecified: generated histories avoid order-dependent outcomes"],
